@@ -11,10 +11,9 @@ func checkC02(p *Program, c *Check) {
 		"ND-1 no clock/global-rand/os/runtime/goroutine/channel/unclassified external call; ND-2 every generator seeded from a request *Seed field; " +
 		"ND-3 every map range order-insensitive (per-key writes, panic-only, or collect-then-sort at a tabled site); ND-4 comparators pure; " +
 		"SHR-1/SHR-4 no request-path write to memory that outlives the request (so no dependence on earlier requests)."
-	c.NotDecided = "bit-reproducibility of math.Exp/Pow across platforms (same binary assumed); mapstructure's handling of case-variant duplicate keys; encoding/json; " +
+	c.NotDecided = "bit-reproducibility of math.Exp/Pow across platforms (same binary assumed); encoding/json; " +
 		"the byte-level encoding of the response"
 	c.Assumptions = []string{
-		"requests do not contain two keys that differ only in letter case (mapstructure matches keys case-insensitively while ranging over a map)",
 		"math/rand with a fixed seed, sort.* and encoding/json are deterministic for one binary",
 	}
 	funcs := p.requestPath(true)
@@ -22,6 +21,7 @@ func checkC02(p *Program, c *Check) {
 	ruleND2(p, c, funcs)
 	ruleND3(p, c, funcs)
 	ruleND4(p, c, funcs)
+	ruleND5(p, c, funcs)
 	sh := NewSharedInfo(p)
 	ruleSHR1(p, c, sh, funcs)
 	ruleSHR4(p, c)
